@@ -352,7 +352,7 @@ OFS = Contract(
     configs=[{"n": 0}, {"n": 1}, {"n": 2}] + ([{"n": 3}] if os.environ.get("VERIF_TIER") == "thorough" else []),
     ensures=[p_of_rows, p_of_alive, p_of_scan],
     raises={"OSError": x_of_oserror, "NoSuchProcess": x_of_gone, "ZombieProcess": x_of_gone},
-    canaries=[], replay=None, max_paths=60000, parallel=True,
+    canaries=[], replay="c14:scan", max_paths=60000, parallel=True,
     note="the undecorated method body: rows exactly for regular files at absolute paths with readable fdinfo; vanished "
          "descriptors are skipped and trigger one liveness check; EINVAL / ENAMETOOLONG links are skipped; other errors "
          "propagate")
